@@ -2471,8 +2471,7 @@ theorem normal_eq {wp : Bool} {r : Reaction} (hir : r.inactReac = []) (hip : r.i
     · cases wp <;> simp [h]
   simp [Reaction.eq, normal, dictEq_refl, hir, hip, dictEq, this]
 
-/-- `copy()` hands the OrderedDicts back to the constructor, which keeps them: the copy compares equal
-    (reflexivity of the modelled `__eq__`; a NaN parameter is outside the model) -/
-theorem copy_eq (r : Reaction) : Reaction.eq r.copy r = true := Reaction.eq_refl r
+/-- `_init_stoich` leaves an OrderedDict exactly as it is -/
+theorem initStoich_ordered (d : Dict) : initStoich .ordered d = d := rfl
 
 end ChemModel.ReactionText
